@@ -374,6 +374,8 @@ def verdict(kind, rec):
         elif kind in ('X86Rel32', 'X86Jmp8') and -span <= d < -(1 << (width - 1)) * scale and \
                 rec['reads'] == rec['ignoring_addend'] + span + (A if kind == 'X86Rel32' else 0):
             return 'known:range_lax'
+    if kind in ODD_SITE_KINDS and rec['P'] % 2 == 1 and rec['reads'] + ODD_SITE_KINDS[kind][1] == rec['ignoring_addend']:
+        return 'known:misaligned_site'      # align(reloc_value, 2): an odd site address is silently rounded up
     if not rec['fits']:
         return 'violation:unrepresentable value accepted and decoded to another address'
     return 'violation:field decodes to %s, symbol is at %s' % (rec['reads'], rec['expected'])
@@ -391,9 +393,60 @@ LAX_WITNESS = {   # kind -> canonical distance S - P of the range finding (first
 }
 
 
+# classes computing align(reloc_value [+2], 2|4) (round UP) without checking the site address:
+# kind -> (canonical (dS, dP) of the witness, reads deviation for an odd site)
+ODD_SITE_KINDS = {'ThWrapNew11': ((0, 1), 1), 'ThRel8': ((0, 1), 1), 'ThBlImm11': ((0, 1), 1), 'ThLit8': ((0, -1), 4)}
+
+
+def misaligned_triage(ctx):
+    """deterministic: for every class with a spec, symbol and/or site address off the scale grid by 1 and 2 around
+    several aligned distances. Every outcome class is decided here: rejected, exact (the class does not depend on the
+    shifted quantity / shift is a multiple of its scale), or the listed finding (thumb: odd site address rounded up,
+    distance silently truncated). Anything else is a violation."""
+    specs = rc.single_specs()
+    stats = {}
+    for kind in KINDS:
+        if kind not in specs and kind not in SPLIT:
+            continue
+        wd, scale, bias = WIDTHS[kind]
+        size = KINDS[kind][4]
+        tmpl = TEMPLATES.get(kind, [0] * size)
+        st = stats.setdefault(kind, {})
+        for base in (64, -64, 2040, -2040, 0x12340):
+            for (dS, dP) in ((1, 0), (-1, 0), (2, 0), (0, 1), (0, -1), (0, 2), (1, 1), (-1, 1), (3, 0), (0, 3)):
+                P = 0x100000 + dP
+                S = (0x100000 + base + bias + dS) if kind not in ABSOLUTE else (0x2040 + abs(base) + dS)
+                out = rc.impl_apply(kind, 0, S, tmpl, P)
+                orec = apply_oracle(kind, 0, S, tmpl, P, out)
+                v = 'rejected' if orec is None else verdict(kind, orec)
+                st[v.split(':')[0] + (':' + v.split(':')[1] if v.startswith('known') else '')] = \
+                    st.get(v.split(':')[0] + (':' + v.split(':')[1] if v.startswith('known') else ''), 0) + 1
+                canon = kind in ODD_SITE_KINDS and base == 64 and (dS, dP) == ODD_SITE_KINDS[kind][0]
+                if v.startswith('violation'):
+                    ctx.violation({'fn': 'Relocation.apply', 'cls': KINDS[kind][2], 'reloc': KINDS[kind][3],
+                                   'args': {'sym_value': S, 'data': list(tmpl), 'reloc_value': P, 'addend': 0},
+                                   'reads': orec['reads'], 'expected': orec['expected'], 'what': v[10:],
+                                   'key': 'misaligned:%s' % kind})
+                elif canon and v == 'known:misaligned_site':
+                    ctx.violation({'fn': 'reloc_apply', 'class': KINDS[kind][2], 'lax': 'misaligned-distance-truncated',
+                                   'args': {'sym_value': S, 'data': list(tmpl), 'reloc_value': P, 'addend': 0},
+                                   'result': list(out.v), 'reads': orec['reads'], 'expected': orec['expected'],
+                                   'how_to_replay': '%s.%s(None).apply(%d, bytearray(%r), %d): site address odd, accepted, '
+                                                    'encodes the distance from reloc_value+1'
+                                                    % (KINDS[kind][1], KINDS[kind][2], S, list(tmpl), P)})
+                elif canon:
+                    st['canonical_witness_no_longer_fails'] = 1
+    ctx.cov['stages']['misaligned_triage'] = stats
+
+
 def known_entries():
     """the known-finding entries of C11 (DESIGN §6 items 23, 24 + Thumb BL), one per (class, witness)"""
     out = []
+    for kind in ODD_SITE_KINDS:
+        out.append({'property': 'C11', 'status': 'known',
+                    'match': {'fn': 'reloc_apply', 'class': KINDS[kind][2], 'lax': 'misaligned-distance-truncated'},
+                    'what': 'arm:thumb %s: an odd relocation site address is rounded up by align(reloc_value, 2) instead of '
+                            'rejected; the odd distance S-P is silently truncated (field designates S from P+1)' % KINDS[kind][3]})
     for arch_name, kind in LINK_KINDS:
         name = KINDS[kind][3]
         wd, scale, bias = WIDTHS[kind]
@@ -548,6 +601,7 @@ def run(ctx):
                                                 'tools/props/reloc_common.py (pairs: lo half applied to its template at P+4)'
                                                 % (KINDS[kind][1], KINDS[kind][2], A, S, list(data), P)})
         ctx.cov['stages']['apply_oracle_evaluations'] = n_or
+        misaligned_triage(ctx)
         dist = {}
         for r in recs:
             d = dist.setdefault(r[0], {'ok': 0, 'diag': 0, 'internal': 0})
